@@ -748,6 +748,53 @@ theorem insert_fillers (cfg : ScanCfg) (hcfg : ScanP.CfgOK cfg) (f : Nat) (p r :
       rw [e]
       exact ⟨k1.trans i1, k2.trans i2⟩
 
+open ScanS ScanX in
+/-- **the same at the top of a file**: fillers in front of a text (a banner comment, blank lines, a commented-out block)
+    change no token the parser sees and not how the scan ends -/
+theorem leading_fillers (cfg : ScanCfg) (f : Nat) (r : List Char) :
+    ∀ (fs : List Filler), (∀ c ∈ fs, c.Ok) →
+    codeKeys (scan cfg .initial f (fillerText fs ++ r)).toks = codeKeys (scan cfg .initial f r).toks ∧
+    (scan cfg .initial f (fillerText fs ++ r)).error.map errKey = (scan cfg .initial f r).error.map errKey := by
+  intro fs
+  induction fs with
+  | nil => intro _; exact ⟨rfl, rfl⟩
+  | cons c rest ih =>
+    intro h
+    obtain ⟨i1, i2⟩ := ih (fun x hx => h x (List.mem_cons_of_mem _ hx))
+    have hc := h c List.mem_cons_self
+    cases c with
+    | blanks ws =>
+      obtain ⟨k1, k2⟩ := leading_blanks cfg f ws (fillerText rest ++ r) hc
+      have e : fillerText (Filler.blanks ws :: rest) ++ r = ws ++ (fillerText rest ++ r) := by
+        simp [fillerText, Filler.text]
+      rw [e]
+      exact ⟨by unfold codeKeys; rw [k1]; exact i1, k2.trans i2⟩
+    | line ws cs =>
+      obtain ⟨k1, k2⟩ := leading_blanks cfg f ws (';' :: (cs ++ '\n' :: (fillerText rest ++ r))) hc.1
+      obtain ⟨t, ht, c2, c3⟩ := comment_line cfg f cs (fillerText rest ++ r) hc.2
+      have e : fillerText (Filler.line ws cs :: rest) ++ r = ws ++ ';' :: (cs ++ '\n' :: (fillerText rest ++ r)) := by
+        simp [fillerText, Filler.text]
+      rw [e]
+      refine ⟨?_, by rw [k2, c3]; exact i2⟩
+      unfold codeKeys at i1 ⊢
+      rw [k1, c2, List.filter_cons_of_neg]
+      · exact i1
+      · show ¬ (t.ty != TokTy.COMMENT) = true
+        rw [ht]; decide
+    | block ws body =>
+      obtain ⟨k1, k2⟩ := leading_blanks cfg f ws ('/' :: '*' :: (body ++ '*' :: '/' :: (fillerText rest ++ r))) hc.1
+      obtain ⟨t, ht, c2, c3⟩ := block_comment cfg f body (fillerText rest ++ r) hc.2
+      have e : fillerText (Filler.block ws body :: rest) ++ r =
+          ws ++ '/' :: '*' :: (body ++ '*' :: '/' :: (fillerText rest ++ r)) := by
+        simp [fillerText, Filler.text]
+      rw [e]
+      refine ⟨?_, by rw [k2, c3]; exact i2⟩
+      unfold codeKeys at i1 ⊢
+      rw [k1, c2, List.filter_cons_of_neg]
+      · exact i1
+      · show ¬ (t.ty != TokTy.COMMENT) = true
+        rw [ht]; decide
+
 /-- non-vacuity of `insert_fillers`: three well-formed fillers, and the conclusion observed on them (a test) -/
 example : (Filler.blanks "\n  ".toList).Ok ∧ (Filler.line "\t".toList " it's /* {".toList).Ok ∧ (Filler.block " ".toList "/ nop\n /".toList).Ok := by
   refine ⟨?_, ⟨?_, ?_⟩, ⟨?_, ?_⟩⟩
